@@ -12,6 +12,23 @@ NOT_APPLICABLE = {}
 HOOK_COMMITS = []
 
 CHECKS = {
+    "C16": {
+        "run": "^TestC16_",
+        "rule": ("virtual time: cases = (time-driven operator, duration 1-50 ms, count / initial delay, source timeline given by inter-arrival gaps (bursts of 0, gaps just below / equal / "
+                 "just above the configured duration, arbitrary), ending, optional unsubscription or context cancellation at a generated instant); real time (ThrottleTime, TimeInterval, "
+                 "Timestamp, Timeout under a slow observer): cases = (operator, duration, gaps, observer delays). Non-trivial = a cut strictly inside the timeline, or >= 2 source values "
+                 "with a gap within 1 ms of the configured duration, or a periodic source; distinct by descriptor hash."),
+        "quick": {"rapid": 300, "timeout": 300, "shards": 4},
+        "thorough": {"rapid": 5000, "timeout": 3000, "shards": 16},
+        "assumptions": COMMON_ASSUMPTIONS + ["virtual-time stamps come from testing/synctest's fake clock: comparisons are exact and load-independent; the real-time part asserts one-sided bounds only"],
+        "technique": "property-based testing of generated timelines in virtual time (testing/synctest) with lower-bound / order / count oracles; one-sided real-time bounds for the operators bound to the process clock",
+        "level_text": ("Exploration. Timer, Interval, IntervalWithInitial, Range/RepeatWithInterval, Delay, DelayEach, Timeout, SampleTime, ThrottleWhen(Interval), BufferWithTime, "
+                       "BufferWithTimeOrCount and WindowWhen(Interval) run inside synctest bubbles on generated timelines: nothing is delivered earlier than the statement allows, "
+                       "periodic values are 0,1,2.., delayed values keep emission order, a timeout needs a full quiet period and never follows the source's terminal, sampled / "
+                       "throttled / buffered outputs are a sub-sequence (prefix) of the source with at most one value per period, and nothing is delivered after Unsubscribe or "
+                       "(for the context-aware stages) cancellation. ThrottleTime, TimeInterval, Timestamp and Timeout-with-a-slow-observer run in real time with one-sided bounds."),
+        "level_note": "Only what the property states is asserted (lower bounds on time, order and count relations): exact firing times and losslessness are not.",
+    },
     "C14": {
         "run": "^TestC14_",
         "rule": ("cases = (stage or chain placed between a never-ending manually driven source and an early terminator, terminator {Take n, First, Head, ElementAt, TakeWhile, TakeUntil(signal), "
